@@ -51,6 +51,10 @@ RULE = ('(P) per kernel x mode x type N disjoint elements (half: independent ran
         'cells under a random dyadic affine map (frustums: parallel end faces; obliquely cut prisms / hexes: NON-parallel end '
         'faces - triangle extruded to three different heights, cone cut at three different ratios, quad extruded up to an '
         'oblique plane; connectivity started at a random corner) + bricks (type x n x lengths) + generate_random_mesh; '
+        'stream `absolute-scale`: the same generator meshes (shell kinds twice as often) scaled exactly by 2^-13 / 2^-10 / 2^10, then '
+        'tie D + {rigid, translate (in the mesh\'s own unit), scale, reflect, rescale (power of two across orders of magnitude), '
+        'storage} + modes-affine at that absolute scale, tolerances relative to the scaled mesh; every normal inside the clamp-free '
+        'range must be a unit vector (all streams); '
         'a case is non-trivial when the exact value is not ~0 (P) / always (metamorphic: the transformed mesh differs); '
         'distinct = distinct (stream, mesh / element, api, mode, transform)')
 ASSUMPTIONS = [
@@ -58,6 +62,14 @@ ASSUMPTIONS = [
     'prism / polyhedron "centroid", polygon centroid kernel); unit normals: 4e-9 * max|p|^2 / |c| (float32 polygon kernel: '
     '1e-5 * max|p|^2 / |c| + 5e-7); metamorphic comparisons use 4x these; relabel / storage comparisons are exact up to 1e-13',
     'identity-testing inputs are centred at the origin with |coordinate| <= 8',
+    'absolute scale (stream `absolute-scale`: meshes scaled exactly by 2^-13, 2^-10, 2^10; transform `rescale`: 2^-13 .. 2^10): areas / '
+    'volumes have no absolute threshold in femio and are asserted at every scale with tolerances relative to max|p|^d of the '
+    'scaled mesh.  Normals: functions.normalize divides by max(|v|, config.EPSILON = 1e-5) and calculate_element_normals '
+    'normalises twice (kernel + final pass), so the unchanged tree returns exact unit normals as long as the un-normalised normal '
+    '(2 x area; 2 x area / (n - 2) for the polygon fan kernel) is >= EPSILON^2 = 1e-10 and a SHORTER vector below that (measured: '
+    'length 0.4 at 2 x area = 4e-11, 0.04 at 2.5e-12).  "Within the float range the method\'s precision supports" is therefore '
+    'read as |un-normalised normal| >= 1e-9 (edge length >~ 3e-5): unit length, rigid / scale invariance and the reflection sign '
+    'of normals are asserted only for such elements (others are counted under `elements-below-the-clamp-range`)',
     'polyhedron face data hold node storage indices (as produced by to_polyhedron); reordering node storage re-indexes them',
     'calculate_element_areas / _normals on a mixed mesh ignore `mode` (sub-calls use the default "centroid"): transcribed in the '
     'model (shellModeInMesh), not a violation of the property',
@@ -473,8 +485,39 @@ def apply_linear(m, A, t=(0, 0, 0)):
     return out
 
 
-def make_transform(rng, m, kind):
-    """a JSON-able transform description"""
+ABS_SCALES = [F(1, 2 ** 13), F(1, 2 ** 10), F(2 ** 10)]       # ~1.2e-4 (0.1 mm in metres), ~1e-3 (mm in metres), ~1e3
+RAW_NORMAL_MIN = 1e-9      # see ASSUMPTIONS: unit normals are asserted for |un-normalised normal| >= 1e-9 (clamp range: < 1e-10)
+
+
+def scaled_mesh(m, s):
+    """the mesh under the uniform scaling by the (dyadic, hence exactly representable) factor s"""
+    out = apply_linear(m, [[F(s) * int(r == c) for c in range(3)] for r in range(3)])
+    out['abs_scale'] = str(s)
+    return out
+
+
+def raw_normal_len(m):
+    """element id -> length of the SHORTEST un-normalised vector a normal kernel of femio hands to functions.normalize for this
+    element: V = sum_i p[i-1] x p[i] (twice the vector area; tri, quad linear / centroid, polygon centroid) or V / (n - 2) (polygon
+    fan kernel: mean of the n - 2 triangle cross products).  Used only to decide whether the element is inside the range in which
+    normalize() does not clamp (ASSUMPTIONS); never compared with a result."""
+    pos = dict(m['nodes'])
+    out = {}
+    for t, b in m['blocks'].items():
+        for e, c in b:
+            p = [pos[n] for n in c]
+            V = (F(0), F(0), F(0))
+            for i in range(len(p)):
+                cr = _cross(p[i - 1], p[i])
+                V = tuple(a + b_ for a, b_ in zip(V, cr))
+            out[e] = sqrtF(sum(x * x for x in V)) / max(1, len(p) - 2)
+    return out
+
+
+def make_transform(rng, m, kind, unit=1):
+    """a JSON-able transform description; `unit` = absolute length scale of the mesh (translations are drawn in this unit so
+    that the translated mesh stays at the same absolute scale and the scale-relative tolerances stay meaningful)"""
+    unit = F(unit)
     if kind == 'relabel':
         nid = [i for i, _ in m['nodes']]
         new, _ = G.random_ids(rng, len(nid), rng.choice(['sparse', 'large', 'dense', 'huge']))
@@ -494,10 +537,15 @@ def make_transform(rng, m, kind):
         return {'kind': kind, 'node_order': nid, 'block_order': blocks}
     if kind == 'rigid':
         R = rand_rotation(rng)
-        return {'kind': kind, 'A': [[str(x) for x in r] for r in R], 't': [str(F(rng.randint(-16, 16), 4)) for _ in range(3)]}
+        return {'kind': kind, 'A': [[str(x) for x in r] for r in R], 't': [str(unit * F(rng.randint(-16, 16), 4)) for _ in range(3)]}
     if kind == 'translate':
         I = [[F(int(r == c)) for c in range(3)] for r in range(3)]
-        return {'kind': kind, 'A': [[str(x) for x in r] for r in I], 't': [str(F(rng.randint(-32, 32), 8)) for _ in range(3)]}
+        return {'kind': kind, 'A': [[str(x) for x in r] for r in I], 't': [str(unit * F(rng.randint(-32, 32), 8)) for _ in range(3)]}
+    if kind == 'rescale':
+        # uniform scaling across orders of magnitude (back to unit size, or to another absolute scale): exact power of two
+        s = 1 / unit if (unit != 1 and rng.random() < .5) else F(2) ** rng.choice([-13, -10, -7, 7, 10])
+        return {'kind': kind, 'A': [[str(s * int(r == c)) for c in range(3)] for r in range(3)], 't': ['0', '0', '0'],
+                's': str(s)}
     if kind == 'scale':
         s = rng.choice([F(1, 2), F(2), F(3), F(3, 2), F(1, 4), F(5, 4)])
         return {'kind': kind, 'A': [[str(s * int(r == c)) for c in range(3)] for r in range(3)], 't': ['0', '0', '0'],
@@ -542,7 +590,7 @@ def expected_relation(tr, api, dim):
         return 1.0, None
     A = [[F(x) for x in r] for r in tr['A']]
     det = G.det3(*A)
-    if k == 'scale':
+    if k in ('scale', 'rescale'):
         s = F(tr['s'])
         return float(s ** dim), [[float(int(r == c)) for c in range(3)] for r in range(3)]
     # orthogonal: signed volumes pick up det = +-1; areas are absolute values; normals: det(Q) Q n
@@ -569,6 +617,29 @@ def check_metamorphic(m, tr, api, mode):
     tys = mesh_types(m)
     bad = []
     type_of = {e: t for t, b in m['blocks'].items() for e, _ in b}
+    out = []
+    raw1 = raw2 = None
+    if api == 'normal':
+        # range in which functions.normalize does not clamp (ASSUMPTIONS): on a mesh of the `absolute-scale` stream elements
+        # below it are skipped (counted by the caller); everywhere a normal inside the range must be a UNIT vector
+        raw1, raw2 = raw_normal_len(m), raw_normal_len(m2)
+        guard = 'abs_scale' in m or tr['kind'] == 'rescale'
+        for mesh, vals, raw, which in ((m, v1, raw1, 'original'), (m2, v2, raw2, 'transformed')):
+            tys_ = {e: t for t, b in mesh['blocks'].items() for e, _ in b}
+            nu = []
+            for e, a in vals.items():
+                if raw[e] < RAW_NORMAL_MIN:
+                    continue
+                emode = mode if len(tys) == 1 else 'centroid'
+                ln = math.sqrt(sum(x * x for x in a))
+                if not abs(ln - 1.0) <= (2e-5 if (tys_[e], emode) in F32_NORMAL else 1e-7):
+                    nu.append((e, ln, raw[e]))
+            if nu:
+                out.append((f'normal-unit:{"mixed" if len(tys) > 1 else tys[0]}',
+                            f'normal (mode={mode}) of {len(nu)} element(s) of the {which} mesh is not a unit vector although the '
+                            f'un-normalised normal is longer than {RAW_NORMAL_MIN:g} (mesh types {"+".join(tys)})',
+                            {'element_length_rawlength': nu[:5], 'mesh': which, 'scale': scale_of(mesh)}))
+                break
     for e, a in v1.items():
         e2 = emap[e] if emap else e
         if e2 not in v2:
@@ -578,6 +649,8 @@ def check_metamorphic(m, tr, api, mode):
         t = type_of[e]
         emode = mode if (len(tys) == 1 or api == 'volume') else 'centroid'
         if api == 'normal':
+            if guard and min(raw1[e], raw2[e2]) < RAW_NORMAL_MIN:
+                continue
             tol = 1e-12 if exact else (2e-5 if (t, emode) in F32_NORMAL else 1e-7)
             want = a if N is None else [sum(N[r][c] * a[c] for c in range(3)) for r in range(3)]
             if not all(abs(x - y) <= tol for x, y in zip(want, b)) or any(x != x for x in b):
@@ -587,7 +660,7 @@ def check_metamorphic(m, tr, api, mode):
             if not abs(fac * a - b) <= tol:
                 bad.append((e, fac * a, b))
     if not bad:
-        return []
+        return out
     kinds = '+'.join(tys) if len(tys) > 1 else tys[0]
     sig = f'{tr["kind"]}:{api}:{"mixed" if len(tys) > 1 else kinds}'
     if exact and len(tys) > 1 and len(v1) == len(v2):
@@ -600,8 +673,8 @@ def check_metamorphic(m, tr, api, mode):
         inv = {b: a for a, b in emap.items()} if emap else None
         if per_type(v1, lambda e: e) == per_type(v2, (lambda e: inv[e]) if inv else (lambda e: e)):
             sig = f'mixed-binding:{api}'
-    return [(sig, f'{api} (mode={mode}) of {len(bad)} element(s) changed under "{tr["kind"]}" beyond the tolerance '
-             f'(mesh types {kinds})', {'element_expected_got': bad[:5], 'scale': sc})]
+    return out + [(sig, f'{api} (mode={mode}) of {len(bad)} element(s) changed under "{tr["kind"]}" beyond the tolerance '
+                   f'(mesh types {kinds})', {'element_expected_got': bad[:5], 'scale': sc})]
 
 
 def closed_form(t, p):
@@ -1092,6 +1165,62 @@ def run(ctx):
             ctx.case(('random', k, trk))
             for sig, what, obs in check_metamorphic(m, tr, api, 'linear'):
                 ctx.fail(sig, what, {'check': 'metamorphic', 'mesh': G.to_json(m), 'transform': tr, 'api': api, 'mode': 'linear'}, obs)
+    # ---- the same oracle at other ABSOLUTE scales (drawn last: the cases above are unchanged for a given seed)
+    abs_scale_stream(ctx)
+
+
+def abs_scale_stream(ctx):
+    """stream `absolute-scale` (inside the quantifier: "every ... scale within the float range the method's precision supports"):
+    the generator meshes of the main loop under an exact uniform scaling by 2^-13 / 2^-10 / 2^10 (0.1 mm and 1 mm cells in a model
+    expressed in metres; kilometre-sized cells), then the metamorphic oracle at THAT absolute scale (translations drawn in the
+    mesh's own unit, tolerances relative to max|p|^d of the scaled mesh, so nothing is hidden by an O(1) tolerance) plus
+    `rescale`: a uniform scaling across orders of magnitude (back to unit size or to another absolute scale).  Normals are also
+    required to be unit vectors (d = 0).  Tie D (`c11.mesh*`, exact over Rat) runs on the scaled mesh as well."""
+    rng = ctx.rng
+    kinds = ['shell:tri', 'shell:quad', 'tet', 'shell:polygon', 'shell:mixed', 'hex', 'shell:quad', 'shell:tri', 'mixed', 'prism',
+             'shell:mixed', 'shell:polygon', 'tet2', 'pyr']
+    trs = ['rigid', 'translate', 'scale', 'reflect', 'rescale', 'storage']
+    mismatch = {0: [], 1: []}
+    for k in range(ctx.n(56, 420) if ctx.driver is not None else ctx.n(112, 840)):
+        kind = kinds[k % len(kinds)]
+        s = ABS_SCALES[(k // len(kinds) * 2 + k) % len(ABS_SCALES)]
+        if kind.startswith('shell:'):
+            base = gen_shell(rng, kind[6:], jit=True if kind == 'shell:mixed' and k % 2 else None)
+            apis = ['normal', 'area']
+        else:
+            base = solid_mesh(ctx, kind)
+            apis = ['volume']
+        m = scaled_mesh(base, s)
+        ctx.count(f'absolute-scale:{kind}:2^{s.numerator.bit_length() - s.denominator.bit_length()}')
+        if apis[0] == 'normal':
+            below = sum(1 for v in raw_normal_len(m).values() if v < RAW_NORMAL_MIN)
+            if below:
+                ctx.count('absolute-scale:elements-below-the-clamp-range (normal not asserted)', below)
+        for api in apis:
+            for mode in (MODES if (k % 4 == 0 or not ctx.quick) else [rng.choice(MODES)]):
+                if ctx.driver is not None:
+                    mesh_tie(ctx, m, api, mode, mismatch)
+                    ctx.count(f'meshtie:{api}:absolute-scale')
+                for trk in trs:
+                    tr = make_transform(rng, m, trk, unit=s)
+                    case = {'check': 'metamorphic', 'mesh': G.to_json(m), 'abs_scale': str(s), 'transform': tr, 'api': api, 'mode': mode}
+                    ctx.case(('abs', kind, k, api, mode, trk),
+                             sample={'check': 'metamorphic', 'stream': 'absolute-scale', 'abs_scale': float(s), 'mesh': G.describe(m),
+                                     'api': api, 'mode': mode, 'transform': trk} if ctx.dist.get('oracle:absolute-scale', 0) < 1 else None)
+                    ctx.count('oracle:absolute-scale')
+                    ctx.count('oracle:absolute-scale:' + trk)
+                    for sig, what, obs in check_metamorphic(m, tr, api, mode):
+                        ctx.fail(sig, what, case, obs)
+        if base.get('affine') and not base.get('jittered') and kind != 'tet2':
+            ctx.case(('abs', kind, k, 'modes-affine'))
+            ctx.count('oracle:modes-affine:absolute-scale')
+            for sig, what, obs in check_modes_affine(m):
+                ctx.fail(sig, what, {'check': 'modes-affine', 'mesh': G.to_json(m)}, obs)
+    if ctx.driver is not None:
+        for case, bad in mismatch[1][:6]:
+            if not mismatch[0] or not any(f['signature'].startswith('mixed-binding:') for f in ctx.failures):
+                ctx.disagree('per-element values differ from Cfg.fixed on a uniformly scaled mesh (stream absolute-scale)',
+                             {k_: v for k_, v in case.items() if k_ != 'mesh'} | {'mesh': case['mesh']}, bad, 'Cfg.fixed')
 
 
 def replay(ctx, obj):
@@ -1107,6 +1236,8 @@ def replay(ctx, obj):
         m['blocks'] = {t: m['blocks'][t] for t in G.ELEMENT_TYPES if t in m['blocks']}
         if 'faces' in case['mesh']:
             m['faces'] = {int(k): v for k, v in case['mesh']['faces'].items()}
+        if case.get('abs_scale'):
+            m['abs_scale'] = case['abs_scale']
         res = check_metamorphic(m, case['transform'], case['api'], case['mode'])
     return {'case': {k: v for k, v in case.items() if k != 'mesh'}, 'failures': [{'signature': s, 'what': w, 'observed': o} for s, w, o in res],
             'fails': bool(res)}
